@@ -337,7 +337,7 @@ def coq_queries(an):
 def case_file(ans):
     return (L.HEADER + "Definition cases : list case := [\n%s\n].\n"
             "Eval vm_compute in (mismatches cases).\nEval vm_compute in (all_classes cases).\n"
-            "Eval vm_compute in (all_alpha cases).\nEval vm_compute in (all_repaired cases).\n"
+            "Eval vm_compute in (all_alpha cases).\nEval vm_compute in (all_regressed cases).\n"
             % ";\n".join(L.g_case(an.p, coq_queries(an), an.new_name) for an in ans))
 
 
@@ -421,8 +421,6 @@ def focus_of(an, m, t, o, probs, model=False):
         return "keyword-only-parameter"
     if any(class_body_attribute_lookup(x.tr.tree, name) for x in mods):
         return "class-body-attribute-lookup"
-    if any(kwarg_in_fstring(x.tr.tree, name) for x in mods):
-        return "keyword-argument-in-fstring"
     if any(nonlocal_decl(x.tr.tree, name) for x in mods):
         return "nonlocal-declaration"
     if any(header_expression(x.tr.tree, name) for x in mods):
@@ -431,6 +429,8 @@ def focus_of(an, m, t, o, probs, model=False):
         return "instance-attribute-hides-inherited"
     # defects that were repaired in /repo (their replays live in corpus/C01): checked last, so that a failure
     # with a recorded cause is not attributed to them
+    if any(kwarg_in_fstring(x.tr.tree, name) for x in mods):
+        return "keyword-argument-in-fstring"
     if (model or any(p.startswith(("skeleton:", "parse:")) for p in probs)) and any(name.lower() in string_prefixes(x.src) for x in mods):
         return "string-prefix-as-occurrence"
     if any(genexp_first_token(x.tr.tree, x.src, name) for x in mods):
@@ -1001,7 +1001,8 @@ def flush(ctx, batch):
     for an, (code, classes, alpha, repaired) in zip(batch, res):
         qs = coq_queries(an)
         if repaired:
-            ctx.count("rope_shows_the_repaired_behaviour_of_a_recorded_finding", repaired)
+            # the model mismatches are reported below; this only names the cause
+            ctx.count("rope_shows_again_the_behaviour_of_a_fixed_defect", repaired)
         for (q, cl) in zip(qs, classes):
             ctx.count("model:" + CLASS_TEXT.get(cl, str(cl)))
         for (q, a) in zip(qs, alpha):
